@@ -115,6 +115,7 @@ type GenesisOpts struct {
 	NoFee       bool
 	NewAcctGas  int64
 	MaxBlockMB  int
+	NoDecay     bool // award_decay.height_gap = 0: CalcAward returns the configured award exactly (beyond 64 bit too)
 }
 
 // Genesis renders the genesis JSON.
@@ -143,6 +144,10 @@ func Genesis(o GenesisOpts) []byte {
 	if o.MaxBlockMB == 0 {
 		o.MaxBlockMB = 16
 	}
+	gap := 31536000
+	if o.NoDecay {
+		gap = 0
+	}
 	g := map[string]interface{}{
 		"version":                      "1",
 		"predistribution":              pds,
@@ -150,7 +155,7 @@ func Genesis(o GenesisOpts) []byte {
 		"award":                        o.Award,
 		"decimals":                     "8",
 		"nofee":                        o.NoFee,
-		"award_decay":                  map[string]interface{}{"height_gap": 31536000, "ratio": 1},
+		"award_decay":                  map[string]interface{}{"height_gap": gap, "ratio": 1},
 		"gas_price":                    map[string]interface{}{"cpu_rate": 1000, "mem_rate": 1000000, "disk_rate": 1, "xfee_rate": 1},
 		"new_account_resource_amount": o.NewAcctGas,
 		"irreversibleslidewindow":      fmt.Sprint(o.Window),
